@@ -712,6 +712,11 @@ def name_variants(shape):
 
 
 def native_search(ctx, o, prop):
+    m = re.match(r'[^:]*:processing\.([A-Za-z_]+)', o.id)
+    if m:
+        # obligation of an unbounded function contract: differential run of the real function against the (plain
+        # Python) specification on a small concrete corpus
+        return {'script': 'native/replay_unbounded.py', 'input': {'function': m.group(1)}}
     m = re.match(r'[^:]*:([^:]+):path', o.id)
     names = [m.group(1)] if m else [s['name'] for s in G.shapes(ctx.tier)]
     by_name = {s['name']: s for s in G.shapes('thorough')}
